@@ -307,6 +307,10 @@ def run_wire_rdata(case):
         return {"nontrivial": len(w) > 0, "classes": ["exc:" + type(e).__name__, "rej:" + case["type"]]}
     o = origin or dns.name.root
     _usable("wire_rdata", lambda: rd.to_text(), f"{case['type']}.to_text()")
+    # every documented text style, not only the default one
+    _usable("wire_rdata", lambda: rd.to_styled_text(dns.rdata.RdataStyle(truncate_crypto=True)), f"{case['type']}.to_styled_text(truncate_crypto)")
+    _usable("wire_rdata", lambda: rd.to_styled_text(dns.rdata.RdataStyle(txt_is_utf8=True, base64_chunk_size=4, hex_chunk_size=2, omit_final_dot=True)), f"{case['type']}.to_styled_text(utf8, chunks, omit_final_dot)")
+    _usable("wire_rdata", lambda: rd.to_text(chunksize=0), f"{case['type']}.to_text(chunksize=0)")
     _usable("wire_rdata", lambda: rd.to_text(origin=o, relativize=True), f"{case['type']}.to_text(origin)")
     _usable("wire_rdata", lambda: rd.to_wire(origin=o), f"{case['type']}.to_wire()")
     _usable("wire_rdata", lambda: rd.to_digestable(o), f"{case['type']}.to_digestable()")
